@@ -28,6 +28,14 @@ PartiallyOccluded(g, p) == Flood(g, {p}, {p}, TRUE) \cup Flood(g, {p}, {p}, FALS
 LitPrefix(g, ray, k) == \A j \in 1..(k - 1) : Transparent(g, ray[j])
 Raytracing(g, fan) ==
   {c \in GPositions(g) : \E r \in DOMAIN fan : \E k \in DOMAIN fan[r] : fan[r][k] = c /\ LitPrefix(g, fan[r], k)}
+\* ray counts and the thresholded variants (parameters absolute_counts, threshold = tn / td of the registry entry)
+RaysThrough(fan, c) == {r \in DOMAIN fan : \E k \in DOMAIN fan[r] : fan[r][k] = c}
+LitRaysThrough(g, fan, c) == {r \in DOMAIN fan : \E k \in DOMAIN fan[r] : fan[r][k] = c /\ LitPrefix(g, fan[r], k)}
+RaytracingThr(g, fan, abs, tn, td) ==
+  {c \in GPositions(g) :
+     LET num == Cardinality(LitRaysThrough(g, fan, c))
+         den == Cardinality(RaysThrough(fan, c))
+     IN IF abs THEN num * td >= tn ELSE den > 0 /\ num * td >= tn * den}
 \* cells that every ray through them reaches lit (shown with probability one)
 AlwaysLit(g, fan) ==
   {c \in GPositions(g) :
